@@ -46,6 +46,7 @@ type Run struct {
 	maxSamples   int
 	counters     map[string]int64
 	violations   []Violation
+	forcedSaturation bool
 	nViolations  int64
 	nKnown       int64
 	inconclusive map[string]int64
@@ -255,7 +256,15 @@ func (r *Run) KnownOpen(key string) bool {
 func (r *Run) Saturated() bool {
 	r.mu.Lock()
 	defer r.mu.Unlock()
-	return r.nViolations >= 25
+	return r.nViolations >= 25 || r.forcedSaturation
+}
+
+// ForceSaturation makes Saturated true: used when hang after hang is being
+// confirmed, so that a failing run does not pay one watchdog per further case.
+func (r *Run) ForceSaturation() {
+	r.mu.Lock()
+	r.forcedSaturation = true
+	r.mu.Unlock()
 }
 
 // Violations returns how many (unknown) violations were recorded.
